@@ -108,6 +108,46 @@ example : ∃ s, Reach s ∧ (7 : Uuid) ∈ s.procs 1 ∧ s.phase = .scheduling 
   have r9 := Reach.step r8 (Step.startExec _ 1 7 true rfl)
   exact ⟨_, r9, by decide, rfl⟩
 
+/-- **Snapshot check is sound.** Whatever set of instances a snapshot covers, a reachable model
+state passes `snapOK`: Idle workers track nothing, every process on an Idle/Running worker's
+instance is in its `starting` or `running` map, and no container has processes on two instances.
+(The e2e driver evaluates `snapOK` on snapshots of the real pool + stub cloud.) -/
+theorem C14_snapshot_check_sound (s : PState) (h : Reach s) (dom : List Nat) :
+    snapOK (s.snap dom) = true := by
+  have inv := Inv_reach h
+  unfold snapOK PState.snap
+  simp only [Bool.and_eq_true, List.all_eq_true, List.mem_filterMap, Option.map_eq_some_iff]
+  constructor
+  · rintro w ⟨i, _, wk, hwk, rfl⟩
+    unfold SnapW.ok
+    simp only [Bool.and_eq_true, Bool.or_eq_true, bne_iff_ne, ne_eq, List.isEmpty_iff,
+      Bool.not_eq_eq_eq_not, Bool.not_true, List.all_eq_true, List.contains_iff_mem]
+    constructor
+    · by_cases hi : wk.state = .idle
+      · have := inv.idleEmpty i wk hwk hi
+        exact Or.inr ⟨this.2, this.1⟩
+      · exact Or.inl hi
+    · by_cases ha : wk.state = .idle ∨ wk.state = .running
+      · right
+        intro c hc
+        have hp := inv.activeProbed i wk hwk ha
+        obtain ⟨w', hw', hcl⟩ := inv.tracked i c hp hc
+        rw [hwk] at hw'; cases hw'
+        exact hcl
+      · left
+        cases hst : wk.state <;> simp_all
+  · rintro a ⟨i, _, wa, hwa, rfl⟩ b ⟨j, _, wb, hwb, rfl⟩
+    simp only [Bool.or_eq_true, beq_iff_eq, List.all_eq_true, Bool.not_eq_eq_eq_not, Bool.not_true]
+    by_cases hij : i = j
+    · exact Or.inl hij
+    · refine Or.inr (fun c hc => ?_)
+      cases hcc : (s.procs j).contains c
+      · rfl
+      · exact absurd (inv.m1 c i j hc (by simpa using hcc)) hij
+
+example : snapOK [⟨1, .running, [], [7], [7]⟩, ⟨2, .idle, [], [], []⟩, ⟨3, .unknown, [], [], [9]⟩] = true := by decide
+example : snapOK [⟨1, .running, [], [7], [7]⟩, ⟨2, .running, [7], [], [7]⟩] = false := by decide
+
 /-! ### A1 is necessary: the escape hatch of `fixStaleLocks` (finding F11)
 
 `fixStaleLocks` may finish while an instance that still runs a container has not been probed:
